@@ -289,7 +289,8 @@ def get_reinforce_baseline(name, **kw):
     exponential baseline and the greedy rollout
     """
     if name == "warmup":
-        inner_baseline = kw.get("baseline", "rollout")
+        # the inner baseline is named by `baseline`: not a keyword of the classes built below
+        inner_baseline = kw.pop("baseline", "rollout")
         if not isinstance(inner_baseline, REINFORCEBaseline):
             inner_baseline = get_reinforce_baseline(inner_baseline, **kw)
         return WarmupBaseline(inner_baseline, **kw)
